@@ -801,6 +801,28 @@ impl MdkStorageProvider for MdkMemoryStorage {
         name: &str,
     ) -> Result<(), MdkStorageError> {
         let key = (group_id.clone(), name.to_string());
+
+        // The snapshot's group record is written back under its nostr_group_id. Refuse -- before
+        // anything is consumed or changed -- when another group has taken that id since the snapshot
+        // (save_group refuses the same collision; the SQLite backend fails on its unique index).
+        let snapshot_nostr_group_id = self
+            .group_snapshots
+            .read()
+            .get(&key)
+            .and_then(|snapshot| snapshot.group.as_ref().map(|group| group.nostr_group_id));
+        if let Some(nostr_group_id) = snapshot_nostr_group_id
+            && let Some(owner) = self
+                .inner
+                .read()
+                .groups_by_nostr_id_cache
+                .peek(&nostr_group_id)
+            && owner.mls_group_id != *group_id
+        {
+            return Err(MdkStorageError::Database(
+                "nostr_group_id already exists for a different group".to_string(),
+            ));
+        }
+
         // Remove and restore the snapshot (consume it)
         let snapshot = self
             .group_snapshots
